@@ -9,8 +9,8 @@ package main
 //	          Lean driver, which checks that it is a run of the queue LTS (per-poster FIFO, no duplicate,
 //	          blocking posts never dropped); then Close within a bound and the goroutine set is compared.
 //	suspend   Suspend/Resume cycles under load (posters, input incl. lone ESC around the 10 ms timer).
-//	fullclose Close while the queue is full and input is pending (F53).
-//	sigclose  Close from the input goroutine's kill-signal arm with sequences pending (F13).
+//	fullclose Close while the queue is full and input is pending (F53, repaired in round 3).
+//	sigclose  Close from the input goroutine's kill-signal arm with sequences pending (F13, repaired in round 3).
 //	dblclose  two concurrent Close calls (F33).
 //	race      the same schedules in a child process built with -race (supporting evidence only).
 import (
@@ -80,6 +80,17 @@ func run(r *hx.Run) error {
 		for gate := 0; gate < 3; gate++ {
 			op := fmt.Sprintf("cycles seed=%d ops=%s gate=%d keys=%d q=0", h.rng.Intn(1<<30), ops, gate, (gate+len(ops))%4)
 			r.Case("cyc-" + ops + fmt.Sprint(gate))
+			res, _ := h.replayOp(strings.Fields(op))
+			r.Emit(op, res)
+		}
+	}
+	// the same without a consumer and with a queue that is full from the start: the input goroutine
+	// blocks in its first post; Suspend/Close must return all the same, a Resume finds the previous
+	// input goroutine alive, Close ends all of them (F13/F53 repaired)
+	for i, ops := range []string{"C", "SC", "SRC", "SRSC", "SRSRC"} {
+		for gate := 0; gate < 3; gate++ {
+			op := fmt.Sprintf("cycles seed=%d ops=%s gate=%d keys=%d q=1 nocons=1", h.rng.Intn(1<<30), ops, gate, 3+(gate+i)%3)
+			r.Case("cycn-" + ops + fmt.Sprint(gate))
 			res, _ := h.replayOp(strings.Fields(op))
 			r.Emit(op, res)
 		}
@@ -180,8 +191,12 @@ func (h *H) replayOp(f []string) (string, bool) {
 				ops = x[4:]
 			}
 		}
-		res := cyclesCase(uint64(m["seed"]), ops, m["gate"], m["keys"], m["q"])
-		count(fmt.Sprintf("cycles:gate%d:%s", m["gate"], ops))
+		res := cyclesCase(uint64(m["seed"]), ops, m["gate"], m["keys"], m["q"], m["nocons"] == 1)
+		if m["nocons"] == 1 {
+			count(fmt.Sprintf("cycles:nocons:gate%d:%s", m["gate"], ops))
+		} else {
+			count(fmt.Sprintf("cycles:gate%d:%s", m["gate"], ops))
+		}
 		return res, true
 	case "forced":
 		kind := ""
@@ -626,7 +641,10 @@ func libAlive(baseP, baseI int, d time.Duration) bool {
 	}
 }
 
-func cyclesCase(seed uint64, ops string, gate, keys, q int) string {
+// With nocons the application never receives: with a small queue the input goroutine blocks in its
+// first post, the parser's channel fills up, and a Resume finds the previous input goroutine still
+// alive (round 3: F13/F53 repaired — Suspend and Close return all the same, Close ends everything).
+func cyclesCase(seed uint64, ops string, gate, keys, q int, nocons bool) string {
 	dump := stackDump()
 	baseP, baseI := countIn(dump, "ansi.(*Parser).run", ""), countIn(dump, "(*Vaxis).openTty.func1", "")
 	t := &tty{Console: fakeconsole.New(80, 24, fakeconsole.FromMask(0)), gate: int32(gate)}
@@ -637,17 +655,24 @@ func cyclesCase(seed uint64, ops string, gate, keys, q int) string {
 	atomic.StoreInt32(&t.armed, 1)
 	stop := make(chan struct{})
 	cdone := make(chan struct{})
-	go func() {
-		defer close(cdone)
-		for {
-			select {
-			case <-vx.Events():
-			case <-stop:
-				return
+	if nocons {
+		close(cdone)
+	} else {
+		go func() {
+			defer close(cdone)
+			for {
+				select {
+				case <-vx.Events():
+				case <-stop:
+					return
+				}
 			}
-		}
-	}()
+		}()
+	}
 	t.InjectString(strings.Repeat("k", keys))
+	if nocons {
+		time.Sleep(3 * time.Millisecond)
+	}
 	var obs []string
 	for _, op := range ops {
 		var ok bool
